@@ -213,6 +213,8 @@ def signals(tier="quick"):
                 for partial in (False, True):
                     if tier == "quick" and signame in ("SIGHUP",) and partial:
                         continue
+                    if signame == "SIGKILL" and partial:
+                        continue    # C07 assumes commands replace their outputs atomically when the whole tree is SIGKILLed
                     work.append((sc, wi, signame, partial, ninja, vcmd, nx, "process"))
                     if signame != "SIGKILL" and any(st.get("pool") == "console" for st in sc["variants"][0]["stmts"]):
                         work.append((sc, wi, signame, partial, ninja, vcmd, nx, "group"))
